@@ -169,3 +169,64 @@ def run(ctx):
     for p in exp:
         if p not in callers:
             ctx.violation("SHARED-LAYOUT", p, "missing", "%s no longer calls Cell::layout: text measuring and text writing use different routines" % p, sites=[])
+
+
+    # ---------------- (d) measuring a glyph fallback == writing it --------------------------------------------------
+    ctx.rule("MEASURE-FALLBACK", "Cell::size measures a fallback glyph as the sum of the same per-character width that a single Char cell gets", floor=2)
+    cs = prog.body("render::Cell::size")
+    if cs is None:
+        ctx.anchor("MEASURE-FALLBACK", "Cell::size")
+    else:
+        char_w = None
+        for bb, t in cs.calls():
+            if call_matches(t, r"^terminal::Size::new$") and expr(cs, t["args"][0]) == "1":
+                e = expr(cs, t["args"][1])
+                if "@Char.0" in e:
+                    char_w = re.sub(r"arg1\.kind@Char\.0", "C", e)
+        sums = [(bb, t) for bb, t in cs.calls() if call_matches(t, r"Iterator::sum$")]
+        ok = False
+        cl_w = None
+        if char_w and len(sums) == 1:
+            e = expr(cs, sums[0][1]["args"][0])
+            m = re.match(r"^Iterator::map\(str::chars\(Glyph::fallback_str\(arg1\.kind@Glyph\.0\)\), closure:(\{closure#\d+\})\[\]\)$", e)
+            if m:
+                cb = prog.body("render::Cell::size::" + m.group(1))
+                if cb is not None:
+                    cl_w = re.sub(r"\barg2\b", "C", expr(cb, {"k": "copy", "place": {"l": 0, "p": []}}))
+                    ok = cl_w == char_w
+        ctx.instance("MEASURE-FALLBACK", {"char_width": char_w, "fallback_per_char_width": cl_w, "agree": ok})
+        ctx.instance("MEASURE-FALLBACK", {"fallback_is_sum_over_chars": len(sums) == 1})
+        if not ok:
+            ctx.violation("MEASURE-FALLBACK", cs.path, "fallback-width", "a glyph without glyph support is measured differently from how its fallback characters are written one by one (char width %s vs per-char %s): layout and render disagree for wide/zero-width characters" % (char_w, cl_w), sites=[cs.loc])
+
+    # ---------------- (e) the sink-full signal ------------------------------------------------------------------------
+    ctx.rule("SINK-FULL", "TerminalWriter::put_cell returns false only where get_mut(pos) found no cell (or from the recursive fallback)", floor=1)
+    if pc is not None:
+        cfg = pc.cfg()
+        gm = [(bb, t) for bb, t in pc.calls() if call_matches(t, r"SurfaceMut::get_mut$")]
+        none_edge = None
+        if len(gm) == 1:
+            nb = gm[0][1]["t"]
+            tt = pc.blocks[nb]["term"]
+            if tt["k"] == "switch":
+                if "0" in tt["vals"]:
+                    none_edge = (nb, tt["targets"][tt["vals"].index("0")])
+                elif tt["vals"] == ["1"]:
+                    none_edge = (nb, tt["otherwise"])
+        falses = []
+        others = []
+        for i, si, s_ in pc.assigns():
+            if s_["place"]["l"] == 0 and not s_["place"]["p"]:
+                if s_["rv"]["k"] == "use" and s_["rv"]["a"]["k"] == "const":
+                    if s_["rv"]["a"]["c"].get("int") == "0":
+                        falses.append((i, s_))
+                else:
+                    others.append((i, s_))
+        for bb, t in pc.calls():
+            if t["dest"]["l"] == 0 and not t["dest"]["p"]:
+                others.append((bb, t))
+        ok = none_edge is not None and bool(falses) and all(cfg.edge_dominates(none_edge[0], none_edge[1], i) for i, _ in falses)
+        ok_other = all((x.get("k") == "call" and call_matches(x, r"Iterator::all$")) for i, x in others)
+        ctx.instance("SINK-FULL", {"false_returns": len(falses), "on_get_mut_none_edge": ok, "other_non_constant_returns": len(others), "only_recursive_fallback": ok_other})
+        if not (ok and ok_other):
+            ctx.violation("SINK-FULL", pc.path, "false-return", "put_cell can report `false` (sink full: the io::Write adapters then discard the rest of the buffer) on a path where the surface is not exhausted", sites=[pc.loc])
